@@ -458,9 +458,7 @@ def check_classification(ctx, tables, order, guarded):
   name_to_kind = {ix.cls(q).name: k for k, q in ENUMS.items()}
   name_to_kind[ix.cls(PAC).name] = "pac"
   kinds_order = [name_to_kind.get(n) for n in order]
-  ctx.check(guarded and None not in kinds_order and set(kinds_order) == set(name_to_kind.values()), "CLS", "SccWord._find_code|consults all six code classes",
-            ctx.where(w.module, w.methods["_find_code"].node), f"lookup order {order}",
-            f"SccWord._find_code consults {order} (is_code guard: {guarded}); all of {sorted(name_to_kind)} must be consulted")
+  # (which classes _find_code consults, and in which order, is decided below by interpreting it on every code word)
   value_sets = {k: {} for k in ENUMS}
   for kind, tab in tables.items():
     for name, v in tab.items():
@@ -488,26 +486,22 @@ def check_classification(ctx, tables, order, guarded):
       pac_cache[k] = fe.call(gr, {gr.params[0]: b1, gr.params[1]: b2}) is not None and fe.call(gd, {gd.params[0]: b2}) is not None
     return pac_cache[k]
 
-  from ..consteval import _CallingConstEval, NotConst as _NC, Raised as _Rs
+  from ..consteval import NotConst as _NC, Raised as _Rs
+  from ..rules.minieval import MiniEval, Node
   fcode = w.methods["_find_code"]
-
-  class _FindCE(_CallingConstEval):
-    """`<CodeClass>.find(...)` is answered from the extracted tables (and the evaluated PAC helpers); everything else of
-    _find_code - guards, dispatch on bytes, `or` chains - is evaluated as written."""
-
-    def _ev(self, m, e, cls, env):
-      if isinstance(e, ast.Call) and isinstance(e.func, ast.Attribute) and e.func.attr == "find" and unparse(e.func.value) in name_to_kind:
-        k = name_to_kind[unparse(e.func.value)]
-        args = [self._ev(m, a, cls, env) for a in e.args]
-        if k == "pac":
-          if len(args) == 2 and is_pac(args[0], args[1]):
-            return ("pac", 2 if args[0] & 0x08 else 1)
-          return None
-        if len(args) == 1 and args[0] in value_sets[k]:
-          name, idx = value_sets[k][args[0]]
-          return (k, 1 if idx == 0 else (2 if idx == 1 else None))
-        return None
-      return super()._ev(m, e, cls, env)
+  # `<CodeClass>.find(...)` is answered from the extracted tables (and the evaluated PAC helpers); everything else of _find_code -
+  # guards, dispatch on bytes, `or` chains, a table of look-up functions - is interpreted as written
+  hooks = {}
+  for cname, k in name_to_kind.items():
+    cq = next((q for q in list(ENUMS.values()) + [PAC] if ix.cls(q).name == cname), None)
+    fm_ = ix.cls(cq).methods.get("find") if cq else None
+    if fm_ is None:
+      continue
+    if k == "pac":
+      hooks[fm_.qualname] = lambda b1_, b2_: (("pac", 2 if b1_ & 0x08 else 1) if is_pac(b1_, b2_) else None)
+    else:
+      hooks[fm_.qualname] = (lambda v_, k_=k: ((k_, 1 if value_sets[k_][v_][1] == 0 else (2 if value_sets[k_][v_][1] == 1 else None)) if v_ in value_sets[k_] else None))
+  me = MiniEval(ix, func_hooks=hooks, node_classes={"SccWord": w})
 
   def code_class(b1, b2):
     value = b1 * 0x100 + b2
@@ -517,17 +511,12 @@ def check_classification(ctx, tables, order, guarded):
       return ("text", None)
     if not (0x10 <= b1 <= 0x1F):
       return ("unknown", None)
-    env = {"self.value": value, "self.byte_1": b1, "self.byte_2": b2}
-    ce = _FindCE(ix, fe, fcode, 0, w)
+    word = Node("SccWord", "word", (), value=value, byte_1=b1, byte_2=b2)
+    me.steps = 0
     try:
-      try:
-        r = fe._block(ce, fcode, fcode.node.body, env)
-      except Exception as ex:
-        if type(ex).__name__ != "_Return":
-          raise
-        r = ex.value
+      r = me.call(fcode, [word])
     except (_NC, _Rs) as ex:
-      raise AnalysisError(f"SccWord._find_code leaves the evaluable subset for word {hex(value)} ({ex})")
+      raise AnalysisError(f"SccWord._find_code leaves the interpreted subset for word {hex(value)} ({ex})")
     return r if isinstance(r, tuple) else ("unknown", None)
 
   wrong = []
